@@ -4,7 +4,7 @@ import json
 CLAIMED = {
  "C14": dict(level="fault_enumeration", design="DESIGN.md §4.6",
    technique="deterministic fault injection: structure-aware at-rest faults (retarget / boundary / nest / hostile xref fields) planted through the harness writer, walked under simulated resource limits (stack size, allocator caps and meters, work budget) in supervised worker processes",
-   text="Typed templates covering the followed reference fields and numeric parameters named in the property; the complete single-fault space (every reference field x every object incl. itself, object 0 and an undefined number; every numeric field x six boundary values; nesting; stream /Length references; hostile trailer and xref-stream fields incl. /Prev self-loops) is enumerated for all 17 templates (incl. DAG trees, a 3000-link parent chain, RC4-encrypted documents that open) in four configurations with and without bytes before the header (both tiers); stream data replaced by 49 hostile payloads; hostile stream-dictionary entries, plus seeded 2-3-fault cases (100 000 quick / 2 000 000 thorough); each case is walked through every read entry point with panics caught, stack overflow / abort / allocation refusal / timeout observed as worker death and confirmed twice.",
+   text="Typed templates covering the followed reference fields and numeric parameters named in the property; the complete single-fault space (every reference field x every object incl. itself, object 0 and an undefined number; every numeric field x six boundary values; nesting; stream /Length references; hostile trailer and xref-stream fields incl. /Prev self-loops) is enumerated for all 20 templates (incl. DAG page / name / number trees, font / appearance / JBIG2 DAGs, a 3000-link parent chain, a 60-link ICC chain, text strings and dates, RC4-encrypted documents that open) in four configurations with and without bytes before the header (thorough; the quick tier alternates that last dimension, thins retarget targets and takes every third name / string value); further single faults: stream data replaced by 66 hostile payloads, hostile stream-dictionary entries, every string value x 14 hostile strings, every name value x 34 reader-selecting names, arrays made longer or shorter, objects replaced by one-element arrays around a reference to themselves, two numbers of one stream dictionary set to the same boundary value, small values for geometry and codec parameters, 25- and 5000-level nesting, plus seeded 2-3-fault cases (100 000 quick / 2 000 000 thorough); each case is walked through every read entry point with panics caught, stack overflow / abort / allocation refusal / timeout observed as worker death and confirmed twice.",
    note="Planting the structure is generation (stated in DESIGN.md); the simulation part is the resource side. Templates are small; resource constants are loose bounds against unboundedness."),
  "C01": dict(level="fault_enumeration", design="DESIGN.md §4.5",
    technique="deterministic fault injection on the storage seam (at-rest corruption, EOF anywhere, sector faults, splices) + metered allocator / stack / work budgets, each case walked through every read entry point in a supervised worker process",
